@@ -4,6 +4,8 @@ try:
 except ImportError:
     from ordereddict import OrderedDict
 
+from inspect import getfullargspec
+
 from compyle.config import get_config
 from pysph.sph.equation import (
     CUDAGroup, CythonGroup, Group, MultiStageEquations, OpenCLGroup,
@@ -29,12 +31,41 @@ def group_equations(equations):
 
 
 ###############################################################################
+def get_arrays_used_in_precomputed(equation):
+    """Return two sets, the source and destination arrays read by the
+    precomputed symbols (VIJ, HIJ, RHOIJ, ...) used in the equation's loop,
+    including the symbols these depend on.
+    """
+    src_arrays = set()
+    dest_arrays = set()
+    loop = getattr(equation, 'loop', None)
+    if loop is None:
+        return src_arrays, dest_arrays
+    pre = Group.pre_comp
+    todo = [x for x in getfullargspec(loop).args if x in pre]
+    done = set()
+    while todo:
+        sym = todo.pop()
+        if sym in done:
+            continue
+        done.add(sym)
+        code_block = pre[sym]
+        src_arrays.update(code_block.src_arrays)
+        dest_arrays.update(code_block.dest_arrays)
+        todo.extend(x for x in code_block.symbols if x in pre)
+    return src_arrays, dest_arrays
+
+
 def check_equation_array_properties(equation, particle_arrays):
     """Given an equation and the particle arrays, check if the particle arrays
     have the necessary properties.
     """
     p_arrays = dict((x.name, x) for x in particle_arrays)
     _src, _dest = get_arrays_used_in_equation(equation)
+    # The generated code also reads the arrays of the precomputed symbols.
+    _pre_src, _pre_dest = get_arrays_used_in_precomputed(equation)
+    _src.update(_pre_src)
+    _dest.update(_pre_dest)
     if equation.dest not in p_arrays:
         msg = "ERROR: Equation {eq_name} has invalid dest: '{dest}'".format(
             eq_name=equation.name, dest=equation.dest
